@@ -17,8 +17,10 @@ from __future__ import annotations
 
 import ast
 
+from ..cfg import CFG
 from ..consteval import ConstEval
-from ..core import AnalysisError, ancestors, ap, norm, walk
+from ..core import AnalysisError, ancestors, ap, atoms, calls, conditions, find_calls, is_none_test, norm, walk
+from .common import class_methods_reachable
 
 SER = "hippolyzer/lib/base/message/udpserializer.py"
 DES = "hippolyzer/lib/base/message/udpdeserializer.py"
@@ -112,7 +114,7 @@ class Flow:
         self.next = {}
         self.brk = {}
         self.cont = {}
-        self.ret = []        # list of (state, return-node)
+        self.ret = []        # list of (state, return-node, value descriptor)
 
     def absorb_abrupt(self, other: "Flow"):
         self.brk = _state_join(self.brk, other.brk)
@@ -120,22 +122,41 @@ class Flow:
         self.ret.extend(other.ret)
 
 
+class Frame:
+    """Name space of one (inlined) function activation.  Integer locals live in the abstract env under
+    `prefix + name`; non-integer values (buffers, helper objects, the input / iterators over it) are
+    flow-insensitive references in `refs`."""
+
+    def __init__(self, fn_node, module, prefix, qual):
+        self.fn, self.module, self.prefix, self.qual = fn_node, module, prefix, qual
+        self.refs = {}
+        self.closures = {}
+
+    def key(self, name):
+        return self.prefix + name
+
+
 class ByteLoopInterp:
-    """Abstract interpreter for a byte-loop codec function (see module docstring)."""
+    """Abstract interpreter for a byte-loop codec function (see module docstring).  Helper functions of the
+    same module, closures and methods of small helper classes are inlined (parameters bound, `self.x` mapped
+    to per-object keys), so moving the loop or its state into helpers does not change the verdict."""
 
     def __init__(self, repo, fi, typestate=False, ghost=False, counter=None):
         self.repo, self.fi, self.fn = repo, fi, fi.node
         self.typestate = typestate
         self.ghost = ghost                # track #g = zeros consumed since the last run count was written
         self.counter = counter            # additionally track #d = #g - counter when the count byte is a counter
-        self.cev = ConstEval(repo, fi.module)
         params = [a.arg for a in self.fn.args.args if a.arg not in ("self", "cls")]
         if len(params) != 1:
             raise AnalysisError(f"{fi.qual}: expected exactly one data parameter, found {params}")
-        self.data = params[0]
-        self.buffers = set()
-        self.closures = {}
-        self.loopvars = set()
+        top = Frame(self.fn, fi.module, "", fi.qual)
+        top.refs[params[0]] = ("data",)
+        self.frames = [top]
+        self.obj_refs = {}                # "<obj prefix>.<attr>" -> reference
+        self.sym_alias = {}               # int parameter key -> key of the caller's variable it was bound from
+        self.buffers = set()              # buffer keys
+        self.loopvars = set()             # canonical keys of loop variables over the input
+        self.stepped = set()              # keys that are stepped with += / -=
         self.record = True
         self.site_viol = {}               # emission stmt node -> [messages]   (typestate)
         self.site_ghost = {}              # emission stmt node -> [messages]   (ghost accounting)
@@ -143,9 +164,53 @@ class ByteLoopInterp:
         self.need_symbols = set()
         self.emitted_symbols = set()
         self.ghost_undecided = False
-        self.returns = []                 # (return node, buffer name, state)
+        self.returns = []                 # (return node, buffer key, state)
         self.raises = {}                  # id(raise node) -> (node, [env, ...]) states in which it is reached
-        self.depth = 0
+        self.len_guards = {}              # id(If node) -> If node whose test looks at the length of an output buffer
+
+    @property
+    def cur(self) -> Frame:
+        return self.frames[-1]
+
+    def cev(self):
+        return ConstEval(self.repo, self.cur.module)
+
+    # ---- references and keys
+    def ref_of(self, e):
+        """Reference denoted by an expression: ('buf', key) / ('obj', prefix, classinfo) / ('data',) / None."""
+        if isinstance(e, ast.Name):
+            return self.cur.refs.get(e.id)
+        if isinstance(e, ast.Attribute):
+            base = self.ref_of(e.value)
+            if base is not None and base[0] == "obj":
+                return self.obj_refs.get(f"{base[1]}.{e.attr}")
+            return None
+        if isinstance(e, ast.Call) and ap(e.func) in ("iter", "bytes", "memoryview", "bytearray") and len(e.args) == 1 \
+                and not e.keywords:
+            r = self.ref_of(e.args[0])
+            return r if r == ("data",) else None
+        return None
+
+    def key_of(self, e):
+        """Storage key of an integer variable expression (local name or attribute of a helper object)."""
+        if isinstance(e, ast.Name):
+            return self.cur.key(e.id)
+        if isinstance(e, ast.Attribute):
+            base = self.ref_of(e.value)
+            if base is not None and base[0] == "obj":
+                return f"{base[1]}.{e.attr}"
+        return None
+
+    def canon(self, key):
+        seen = set()
+        while key in self.sym_alias and key not in seen:
+            seen.add(key)
+            key = self.sym_alias[key]
+        return key
+
+    def sym_of(self, e):
+        k = self.key_of(e) if isinstance(e, (ast.Name, ast.Attribute)) else None
+        return self.canon(k) if k is not None else None
 
     # ---- diagnostics
     def bad(self, node, what):
@@ -166,18 +231,22 @@ class ByteLoopInterp:
             if isinstance(e.value, int):
                 return (e.value, e.value)
             self.bad(e, "non-integer constant")
-        if isinstance(e, ast.Name):
-            if e.id in env:
-                return env[e.id]
-            v = self.cev.ev(e)
+        if isinstance(e, (ast.Name, ast.Attribute)):
+            k = self.key_of(e)
+            if k is not None and k in env:
+                return env[k]
+            if self.ref_of(e) is not None:
+                self.bad(e, "buffer / object / input used as a number")
+            v = None
+            base = self.ref_of(e.value) if isinstance(e, ast.Attribute) else None
+            if base is not None and base[0] == "obj":
+                cv = self.repo.class_attr(base[2], e.attr)          # class-level constant of a helper object
+                v = ConstEval(self.repo, base[2].module).ev(cv) if cv is not None else None
+            elif not (isinstance(e, ast.Name) and self._is_local(e.id)):
+                v = self.cev().ev(e)
             if isinstance(v, int) and not isinstance(v, bool):
                 return (v, v)
-            self.bad(e, "name without a known integer value")
-        if isinstance(e, ast.Attribute):
-            v = self.cev.ev(e)
-            if isinstance(v, int) and not isinstance(v, bool):
-                return (v, v)
-            self.bad(e, "attribute without a constant integer value")
+            self.bad(e, "name / attribute without a known integer value")
         if isinstance(e, ast.UnaryOp):
             if isinstance(e.op, ast.USub):
                 return _neg(self.ev(e.operand, env))
@@ -198,11 +267,11 @@ class ByteLoopInterp:
             self.bad(e, "binary operator")
         if isinstance(e, ast.Call):
             fn = ap(e.func)
-            if fn == "len" and len(e.args) == 1 and isinstance(e.args[0], ast.Name):
-                n = e.args[0].id
-                if n in self.buffers:
-                    return env[f"#len:{n}"]
-                if n == self.data:
+            if fn == "len" and len(e.args) == 1:
+                r = self.ref_of(e.args[0])
+                if r is not None and r[0] == "buf":
+                    return env[f"#len:{r[1]}"]
+                if r == ("data",):
                     return (0, INF)
             if fn in ("min", "max") and len(e.args) == 2 and not e.keywords:
                 a, b = self.ev(e.args[0], env), self.ev(e.args[1], env)
@@ -231,12 +300,21 @@ class ByteLoopInterp:
         return q, r
 
     # ---- tests: (env if true | None, env if false | None)
+    def _is_local(self, name):
+        """Is `name` assigned (or a parameter) in the function of the current frame?  Such names never fall back
+        to module constants."""
+        fn = self.cur.fn
+        if any(a.arg == name for a in fn.args.args + fn.args.kwonlyargs):
+            return True
+        return any(isinstance(n, ast.Name) and n.id == name and isinstance(n.ctx, ast.Store) for n in ast.walk(fn))
+
     def _key(self, e):
-        if isinstance(e, ast.Name):
-            return e.id
-        if isinstance(e, ast.Call) and ap(e.func) == "len" and len(e.args) == 1 and isinstance(e.args[0], ast.Name) \
-                and e.args[0].id in self.buffers:
-            return f"#len:{e.args[0].id}"
+        if isinstance(e, (ast.Name, ast.Attribute)):
+            return self.key_of(e)
+        if isinstance(e, ast.Call) and ap(e.func) == "len" and len(e.args) == 1:
+            r = self.ref_of(e.args[0])
+            if r is not None and r[0] == "buf":
+                return f"#len:{r[1]}"
         return None
 
     @staticmethod
@@ -335,9 +413,16 @@ class ByteLoopInterp:
         if isinstance(e, ast.Constant):
             return bytes(e.value) if isinstance(e.value, (bytes, bytearray)) else None
         if isinstance(e, (ast.Name, ast.Attribute)):
-            if isinstance(e, ast.Name) and (e.id in env or e.id in self.buffers or e.id == self.data):
+            k = self.key_of(e)
+            if (k is not None and k in env) or self.ref_of(e) is not None or \
+                    (isinstance(e, ast.Name) and self._is_local(e.id)):
                 return None
-            v = self.cev.ev(e)
+            base = self.ref_of(e.value) if isinstance(e, ast.Attribute) else None
+            if base is not None and base[0] == "obj":
+                cv = self.repo.class_attr(base[2], e.attr)
+                v = ConstEval(self.repo, base[2].module).ev(cv) if cv is not None else None
+            else:
+                v = self.cev().ev(e)
             if isinstance(v, (bytes, bytearray)):
                 return bytes(v)
         return None
@@ -348,7 +433,7 @@ class ByteLoopInterp:
         if cb is not None:
             return [("b", (v, v), None) for v in cb]
         if isinstance(e, (ast.Tuple, ast.List)):
-            return [("b", self.ev(x, env), x.id if isinstance(x, ast.Name) else None) for x in e.elts]
+            return [("b", self.ev(x, env), self.sym_of(x)) for x in e.elts]
         if isinstance(e, ast.Call) and ap(e.func) in ("bytes", "bytearray") and len(e.args) == 1 and not e.keywords:
             if isinstance(e.args[0], (ast.Tuple, ast.List, ast.Constant)) and not (
                     isinstance(e.args[0], ast.Constant) and isinstance(e.args[0].value, int)):
@@ -460,9 +545,10 @@ class ByteLoopInterp:
 
     # ---- statements
     def assign(self, name, itv, env, delta=None, value_itv=None):
+        """Store to the integer variable with storage key `name`."""
         env = dict(env)
         env[name] = itv
-        if self.counter is not None and name == self.counter:
+        if self.ghost and self.counter is not None and name == self.counter:
             if delta is not None:
                 env["#d"] = _sub(env["#d"], delta)
             else:
@@ -487,11 +573,165 @@ class ByteLoopInterp:
         fl.next = cur or {}
         return fl
 
+    # ---- calls that are inlined
+    def _callee(self, call):
+        """('closure', node) / ('func', FuncInfo, self-ref|None) / ('ctor', ClassInfo) / None."""
+        fn = call.func
+        if isinstance(fn, ast.Name):
+            if fn.id in self.cur.closures:
+                return ("closure", self.cur.closures[fn.id])
+            for g in self.repo.funcs.get(fn.id, []):
+                if g.module is self.cur.module and g.cls is None and g.parent_fn is None:
+                    return ("func", g, None)
+            ci = self.repo.resolve_class(fn.id, self.cur.module)
+            if ci is not None and ci.module is self.cur.module:
+                return ("ctor", ci)
+            return None
+        if isinstance(fn, ast.Attribute):
+            base = self.ref_of(fn.value)
+            if base is not None and base[0] == "obj":
+                m = self.repo.lookup_method(base[2], fn.attr)
+                if m is not None:
+                    return ("func", m, base)
+            elif base is None and ap(fn.value) in ("self", "cls") and self.fi.cls is not None and len(self.frames) == 1:
+                m = self.repo.lookup_method(self.fi.cls, fn.attr)
+                if m is not None:
+                    return ("func", m, ("none",))
+            elif base is None and isinstance(fn.value, ast.Name):
+                ci = self.repo.resolve_class(fn.value.id, self.cur.module)      # Class.static_helper(...)
+                if ci is not None and ci.module is self.cur.module:
+                    m = self.repo.lookup_method(ci, fn.attr)
+                    if m is not None:
+                        return ("func", m, ("none",))
+        return None
+
+    def inline(self, call, state):
+        """Execute the callee over `state`; -> (state after the call, value descriptor).
+        Descriptor: a reference, ('int', key) with the value stored under key in every env, or ('none',)."""
+        kind = self._callee(call)
+        if kind is None:
+            self.bad(call, "call")
+        if len(self.frames) > 8:
+            self.bad(call, "call nesting too deep / recursive")
+        if kind[0] == "closure":
+            node = kind[1]
+            if call.args or call.keywords:
+                self.bad(call, "closure call with arguments")
+            res = self.block(node.body, state)
+            frame = self.cur
+        else:
+            if kind[0] == "ctor":
+                self.bad(call, "constructor call outside an assignment")
+            g, self_ref = kind[1], kind[2]
+            if any(fr.fn is g.node for fr in self.frames):
+                self.bad(call, "recursive call")
+            frame = Frame(g.node, g.module, f"{g.qual}$", g.qual)
+            a = g.node.args
+            if a.vararg or a.kwarg or a.kwonlyargs or a.posonlyargs:
+                self.bad(call, "callee with */** / keyword-only parameters")
+            params = [x.arg for x in a.args]
+            decos = {(ap(d) or "").split(".")[-1] for d in g.node.decorator_list}
+            if g.cls is not None and "staticmethod" not in decos:
+                if not params:
+                    self.bad(call, "method without self")
+                frame.refs[params[0]] = self_ref if self_ref is not None else ("none",)
+                params = params[1:]
+            bound = {}
+            if len(call.args) > len(params):
+                self.bad(call, "too many arguments")
+            for pname, arg in zip(params, call.args):
+                bound[pname] = arg
+            for k in call.keywords:
+                if k.arg is None or k.arg not in params or k.arg in bound:
+                    self.bad(call, "keyword argument")
+                bound[k.arg] = k.value
+            defaults = dict(zip(params[len(params) - len(a.defaults):], a.defaults))
+            stored = {n.id for n in ast.walk(g.node) if isinstance(n, ast.Name) and isinstance(n.ctx, ast.Store)}
+            ints = []
+            for pname in params:
+                arg = bound.get(pname, defaults.get(pname))
+                if arg is None:
+                    self.bad(call, f"missing argument {pname}")
+                r = self.ref_of(arg) if pname in bound else None
+                if r is not None:
+                    frame.refs[pname] = r
+                else:
+                    ints.append((pname, arg, pname in bound))
+            # integer arguments are evaluated in the caller's frame, per abstract state
+            def bind(env):
+                env = dict(env)
+                for pname, arg, from_caller in ints:
+                    env[frame.key(pname)] = self.ev(arg, env)
+                return env
+            for pname, arg, from_caller in ints:
+                k = self.key_of(arg) if from_caller and isinstance(arg, (ast.Name, ast.Attribute)) else None
+                if k is not None and pname not in stored:
+                    self.sym_alias[frame.key(pname)] = k
+            state = self.map_envs(state, bind)
+            self.frames.append(frame)
+            try:
+                res = self.block(g.node.body, state)
+            finally:
+                self.frames.pop()
+        if res.brk or res.cont:
+            self.bad(call, "break/continue escaping a callee")
+        out = res.next
+        descs = set()
+        for rs, rn, d in res.ret:
+            out = _state_join(out, rs)
+            descs.add(d)
+        if res.next and descs - {("none",)}:
+            descs.add(("none",))
+        if len(descs) > 1:
+            self.bad(call, "callee returning different kinds of values")
+        return out, (next(iter(descs)) if descs else ("none",))
+
+    def construct(self, target_key, ci, call, state):
+        ref = ("obj", target_key, ci)
+        init = self.repo.lookup_method(ci, "__init__")
+        if init is None:
+            if call.args or call.keywords:
+                self.bad(call, "constructor arguments without __init__")
+            return state, ref
+        fake = ast.Call(func=ast.Attribute(value=ast.Name(id="$new", ctx=ast.Load()), attr="__init__", ctx=ast.Load()),
+                        args=call.args, keywords=call.keywords)
+        ast.copy_location(fake, call)
+        self.cur.refs["$new"] = ref
+        try:
+            out, _d = self.inline(fake, state)
+        finally:
+            self.cur.refs.pop("$new", None)
+        return out, ref
+
+    def _bind_ref(self, tg, ref):
+        if isinstance(tg, ast.Name):
+            old = self.cur.refs.get(tg.id)
+            if old is not None and old != ref:
+                self.bad(tg, "re-binding of a buffer / object / input name")
+            self.cur.refs[tg.id] = ref
+        else:
+            k = self.key_of(tg)
+            if k is None:
+                self.bad(tg, "assignment target")
+            if self.obj_refs.get(k, ref) != ref:
+                self.bad(tg, "re-binding of an object attribute that holds a buffer / object")
+            self.obj_refs[k] = ref
+
+    def _value_desc(self, e, state):
+        """(state, descriptor) of a returned / assigned non-call expression."""
+        if e is None or (isinstance(e, ast.Constant) and e.value is None):
+            return state, ("none",)
+        r = self.ref_of(e)
+        if r is not None:
+            return state, r
+        return state, None
+
+    # ---- statements
     def stmt(self, st, state, fl: Flow):
-        if isinstance(st, (ast.FunctionDef,)):
+        if isinstance(st, ast.FunctionDef):
             if st.args.args or st.args.kwonlyargs or st.args.vararg or st.args.kwarg:
                 self.bad(st, "closure with parameters")
-            self.closures[st.name] = st
+            self.cur.closures[st.name] = st
             return state
         if isinstance(st, (ast.Nonlocal, ast.Global, ast.Pass)):
             return state
@@ -503,79 +743,116 @@ class ByteLoopInterp:
                 fn = ap(v.func) or ""
                 if fn.startswith(LOG_PREFIXES) or fn == "print":
                     return state
-                if isinstance(v.func, ast.Name) and v.func.id in self.closures and not v.args and not v.keywords:
-                    self.depth += 1
-                    if self.depth > 8:
-                        self.bad(st, "recursive closure")
-                    sub = self.block(self.closures[v.func.id].body, state)
-                    self.depth -= 1
-                    if sub.brk or sub.cont:
-                        self.bad(st, "break/continue escaping a closure")
-                    out = sub.next
-                    for rs, rn in sub.ret:
-                        if rn.value is not None:
-                            self.bad(rn, "closure returning a value")
-                        out = _state_join(out, rs)
-                    return out
-                if isinstance(v.func, ast.Attribute) and isinstance(v.func.value, ast.Name) and v.func.value.id in self.buffers \
-                        and not v.keywords and len(v.args) == 1:
-                    buf = v.func.value.id
-                    if v.func.attr == "append":
+                if isinstance(v.func, ast.Attribute) and not v.keywords and len(v.args) == 1 and v.func.attr in ("append", "extend"):
+                    r = self.ref_of(v.func.value)
+                    if r is not None and r[0] == "buf":
                         out = {}
                         for ph, env in state.items():
                             a = v.args[0]
-                            item = [("b", self.ev(a, env), a.id if isinstance(a, ast.Name) else None)]
-                            out = _state_join(out, self.emit(st, buf, item, {ph: env}))
+                            items = [("b", self.ev(a, env), self.sym_of(a))] if v.func.attr == "append" else self._items(st, a, env)
+                            out = _state_join(out, self.emit(st, r[1], items, {ph: env}))
                         return out
-                    if v.func.attr == "extend":
-                        out = {}
-                        for ph, env in state.items():
-                            out = _state_join(out, self.emit(st, buf, self._items(st, v.args[0], env), {ph: env}))
-                        return out
+                if isinstance(v.func, ast.Attribute) and v.func.attr == "clear" and not v.args and not v.keywords:
+                    r = self.ref_of(v.func.value)
+                    if r is not None and r[0] == "buf":
+                        merged = None
+                        for env in state.values():
+                            merged = _env_join(merged, {**env, f"#len:{r[1]}": (0, 0)})
+                        return {("idle" if self.typestate else "-"): merged}
+                if self._callee(v) is not None and self._callee(v)[0] != "ctor":
+                    out, _d = self.inline(v, state)
+                    return out
             self.bad(st, "expression statement")
         if isinstance(st, (ast.Assign, ast.AnnAssign)):
             tg = st.targets[0] if isinstance(st, ast.Assign) and len(st.targets) == 1 else getattr(st, "target", None)
             val = st.value
             if tg is None or val is None:
                 self.bad(st, "assignment")
-            if isinstance(tg, ast.Name) and isinstance(val, ast.Call) and ap(val.func) == "bytearray" and \
-                    (not val.args or (len(val.args) == 1 and isinstance(val.args[0], ast.Constant) and val.args[0].value in (b"", 0))):
-                self.buffers.add(tg.id)
-                return self.map_envs(state, lambda env: {**env, f"#len:{tg.id}": (0, 0)})
             if isinstance(tg, ast.Tuple) and len(tg.elts) == 2 and all(isinstance(x, ast.Name) for x in tg.elts) and \
                     isinstance(val, ast.Call) and ap(val.func) == "divmod" and len(val.args) == 2:
+                k0, k1 = self.key_of(tg.elts[0]), self.key_of(tg.elts[1])
+
                 def f(env):
                     q, r = self._divmod(val, self.ev(val.args[0], env), self.ev(val.args[1], env))
-                    env = self.assign(tg.elts[0].id, q, env, value_itv=q)
-                    return self.assign(tg.elts[1].id, r, env, value_itv=r)
+                    env = self.assign(k0, q, env, value_itv=q)
+                    return self.assign(k1, r, env, value_itv=r)
                 return self.map_envs(state, f)
-            if isinstance(tg, ast.Name):
-                if tg.id in self.buffers or tg.id == self.data:
-                    self.bad(st, "re-binding of a buffer / the input")
+            key = self.key_of(tg) if isinstance(tg, (ast.Name, ast.Attribute)) else None
+            if key is None:
+                self.bad(st, "assignment target")
+            # a fresh output buffer
+            if isinstance(val, ast.Call) and ap(val.func) == "bytearray" and \
+                    (not val.args or (len(val.args) == 1 and isinstance(val.args[0], ast.Constant) and val.args[0].value in (b"", 0))):
+                self._bind_ref(tg, ("buf", key))
+                self.buffers.add(key)
+                return self.map_envs(state, lambda env: {**env, f"#len:{key}": (0, 0)})
+            # a module / class level bytearray used as output space: a buffer whose previous content is unknown
+            # (whether sharing it is safe is the purity lint's business, C03.P1)
+            if isinstance(val, (ast.Name, ast.Attribute)) and self.ref_of(val) is None and \
+                    not (isinstance(val, ast.Name) and self._is_local(val.id)):
+                node = None
+                if isinstance(val, ast.Name):
+                    node = self.repo.module_assign(self.cur.module, val.id)
+                elif isinstance(val.value, ast.Name):
+                    owner = self.repo.resolve_class(val.value.id, self.cur.module)
+                    if val.value.id in ("cls", "self") and self.fi.cls is not None:
+                        owner = self.fi.cls
+                    node = self.repo.class_attr(owner, val.attr) if owner is not None else None
+                if isinstance(node, ast.Call) and ap(node.func) == "bytearray" and not node.args and not node.keywords:
+                    skey = f"shared:{ap(val)}"
+                    self._bind_ref(tg, ("buf", skey))
+                    self.buffers.add(skey)
+                    return self.map_envs(state, lambda env: {**env, f"#len:{skey}": env.get(f"#len:{skey}", (0, INF))})
+            # alias of a buffer / object / the input (or an iterator over it)
+            r = self.ref_of(val)
+            if r is not None:
+                self._bind_ref(tg, r)
+                return state
+            if isinstance(val, ast.Call):
+                kind = self._callee(val)
+                if kind is not None and kind[0] == "ctor":
+                    out, ref = self.construct(key, kind[1], val, state)
+                    self._bind_ref(tg, ref)
+                    return out
+                if kind is not None:
+                    out, d = self.inline(val, state)
+                    if d[0] == "int":
+                        return self.map_envs(out, lambda env: self.assign(key, env[d[1]], env, value_itv=env[d[1]]))
+                    if d[0] == "none":
+                        self.bad(st, "assignment from a call that returns nothing")
+                    self._bind_ref(tg, d)
+                    return out
+            if self.cur.refs.get(getattr(tg, "id", None)) is not None or self.obj_refs.get(key) is not None:
+                self.bad(st, "re-binding of a buffer / object / the input")
 
-                def g(env):
-                    v = self.ev(val, env)
-                    return self.assign(tg.id, v, env, value_itv=v)
-                return self.map_envs(state, g)
-            self.bad(st, "assignment target")
+            def g(env):
+                v = self.ev(val, env)
+                return self.assign(key, v, env, value_itv=v)
+            return self.map_envs(state, g)
         if isinstance(st, ast.AugAssign):
             tg = st.target
-            if isinstance(tg, ast.Name) and tg.id in self.buffers and isinstance(st.op, ast.Add):
+            r = self.ref_of(tg)
+            if r is not None and r[0] == "buf" and isinstance(st.op, ast.Add):
                 out = {}
                 for ph, env in state.items():
-                    out = _state_join(out, self.emit(st, tg.id, self._items(st, st.value, env), {ph: env}))
+                    out = _state_join(out, self.emit(st, r[1], self._items(st, st.value, env), {ph: env}))
                 return out
-            if isinstance(tg, ast.Name) and isinstance(st.op, (ast.Add, ast.Sub)):
+            key = self.key_of(tg) if isinstance(tg, (ast.Name, ast.Attribute)) else None
+            if key is not None and r is None and isinstance(st.op, (ast.Add, ast.Sub)):
+                self.stepped.add(key)
+
                 def h(env):
-                    if tg.id not in env:
+                    if key not in env:
                         self.bad(st, "augmented assignment to an unbound name")
                     k = self.ev(st.value, env)
                     if isinstance(st.op, ast.Sub):
                         k = _neg(k)
-                    return self.assign(tg.id, _add(env[tg.id], k), env, delta=k)
+                    return self.assign(key, _add(env[key], k), env, delta=k)
                 return self.map_envs(state, h)
             self.bad(st, "augmented assignment")
         if isinstance(st, ast.If):
+            if any(isinstance(c, ast.Call) and (self._key(c) or "").startswith("#len:") for c in ast.walk(st.test)):
+                self.len_guards[id(st)] = st
             tstate, fstate = {}, {}
             for ph, env in state.items():
                 t, f = self.split(st.test, env)
@@ -591,7 +868,20 @@ class ByteLoopInterp:
         if isinstance(st, ast.For):
             return self.loop(st, state, fl)
         if isinstance(st, ast.Return):
-            fl.ret.append((state, st))
+            v = st.value
+            if isinstance(v, ast.Call) and self._callee(v) is not None and self._callee(v)[0] != "ctor":
+                out, d = self.inline(v, state)
+                fl.ret.append((out, st, d))
+                return {}
+            while isinstance(v, ast.Call) and ap(v.func) in ("bytes", "bytearray", "memoryview") and len(v.args) == 1 \
+                    and self.ref_of(v.args[0]) is not None and self.ref_of(v.args[0])[0] == "buf":
+                v = v.args[0]
+            _s, d = self._value_desc(v, state)
+            if d is None:
+                rk = f"#ret:{self.cur.prefix}"
+                state = self.map_envs(state, lambda env: {**env, rk: self.ev(v, env)})
+                d = ("int", rk)
+            fl.ret.append((state, st, d))
             return {}
         if isinstance(st, ast.Raise):
             if self.record:
@@ -606,12 +896,12 @@ class ByteLoopInterp:
         self.bad(st, f"statement {type(st).__name__}")
 
     def loop(self, st: ast.For, state, fl: Flow):
-        it = st.iter
-        while isinstance(it, ast.Call) and ap(it.func) in ("bytes", "memoryview", "bytearray", "iter") and len(it.args) == 1:
-            it = it.args[0]
-        if not (isinstance(it, ast.Name) and it.id == self.data and isinstance(st.target, ast.Name)) or st.orelse:
+        # `for b in <input>` / `for b in <iterator over the input>`.  Loops over one shared iterator may nest:
+        # whatever part of the input a loop sees is an arbitrary byte sequence, so every such loop is analysed as
+        # "any number of arbitrary bytes" - a sound over-approximation of the shared-iterator semantics.
+        if self.ref_of(st.iter) != ("data",) or not isinstance(st.target, ast.Name) or st.orelse:
             self.bad(st, "loop that is not `for <byte> in <input>`")
-        lv = st.target.id
+        lv = self.cur.key(st.target.id)
         self.loopvars.add(lv)
 
         def iteration(head):
@@ -664,13 +954,10 @@ class ByteLoopInterp:
             self.bad(self.fn, "function can fall off its end without returning the buffer")
         if fl.brk or fl.cont:
             self.bad(self.fn, "break/continue outside a loop")
-        for state, rn in fl.ret:
-            v = rn.value
-            while isinstance(v, ast.Call) and ap(v.func) in ("bytes", "bytearray", "memoryview") and len(v.args) == 1:
-                v = v.args[0]
-            if not (isinstance(v, ast.Name) and v.id in self.buffers):
+        for state, rn, d in fl.ret:
+            if d[0] != "buf":
                 self.bad(rn, "return value that is not the output buffer")
-            self.returns.append((rn, v.id, state))
+            self.returns.append((rn, d[1], state))
         if not self.returns:
             self.bad(self.fn, "no return of the output buffer")
         return self
@@ -695,9 +982,7 @@ def r1(ctx):
                else f"len <= {int(hi)}")
     ctx.stats["C03.R1.bound"] = worst if worst != INF else "unbounded"
     # the cap must refuse, not silently truncate
-    guards = [n for n in walk(f.node) if isinstance(n, ast.If) and any(
-        isinstance(c, ast.Call) and ap(c.func) == "len" and c.args and ap(c.args[0]) in it.buffers for c in walk(n.test))]
-    for g in guards:
+    for g in it.len_guards.values():
         refuses = any(isinstance(x, ast.Raise) for x in walk(g))
         ctx.ob("C03.R1", f"{f.qual}: size test `{norm(g.test)}` refuses by raising", refuses, ctx.w(f, g),
                "exceeding the cap must be an error (a truncated expansion would be parsed as a different message)")
@@ -730,8 +1015,7 @@ def r2(ctx):
                "the function can return while a zero marker still waits for its run count (final flush missing)")
     # ghost accounting of consumed zeros, when the run counter can be identified: the one stepped local
     # (`x += 1`) that is written to the output
-    stepped = {n.target.id for n in walk(f.node, into_defs=True) if isinstance(n, ast.AugAssign) and isinstance(n.target, ast.Name)}
-    counters = {x for x in it.emitted_symbols if x is not None and x in stepped and x not in it.loopvars}
+    counters = {x for x in it.emitted_symbols if x is not None and x in it.stepped and x not in it.loopvars}
     g = None
     if len(counters) == 1:
         g = ByteLoopInterp(repo, f, typestate=True, ghost=True, counter=next(iter(counters))).run()
@@ -759,9 +1043,128 @@ def r3(ctx):
     c01.r6(RenamedCtx(ctx, {"C01.R6": "C03.R3"}))
 
 
+def _gate_conditions(node, fn_node):
+    """Conditions under which `node` takes effect: enclosing branches and earlier early returns (guards that
+    only raise produce no output at all and do not count)."""
+    raising = {id(n.test) for n in walk(fn_node) if isinstance(n, ast.If) and (
+        (n.body and isinstance(n.body[-1], ast.Raise)) or (n.orelse and isinstance(n.orelse[-1], ast.Raise)))}
+    out = []
+    for c in conditions(node, fn_node):
+        if c.kind == "assert" or (c.kind == "early-exit" and id(c.test) in raising):
+            continue
+        out.extend(atoms(c.test, c.polarity))
+    return out
+
+
+def _must_hold_at_sinks(fi, call, is_sink):
+    """Forward must-analysis on the CFG of fi: which local names certainly hold the value of `call` (copies
+    followed).  -> [(sink node, sink name, holds?)] for every sink reachable from the call's statement."""
+    stmt = call
+    for a in ancestors(call):
+        if isinstance(a, ast.stmt):
+            stmt = a
+            break
+    direct = [c for c in calls(stmt) if any(a is call for a in c.args) and isinstance(c.func, ast.Attribute)
+              and (c.func.attr == "write_bytes" or c.func.attr.endswith("BufferReader"))]
+    if direct or (isinstance(stmt, ast.Return) and stmt.value is call):
+        return [(stmt, None, True)]          # transformed value handed to the consumer directly
+    if not (isinstance(stmt, ast.Assign) and stmt.value is call and len(stmt.targets) == 1 and isinstance(stmt.targets[0], ast.Name)):
+        raise AnalysisError(f"{fi.qual}: result of `{norm(call)}` is not stored in a local or handed to its consumer directly")
+    cfg = CFG(fi.node)
+    starts = cfg.nodes_for(stmt)
+    reach = cfg.reachable(starts, exc=False)
+    TOP = None
+    out = {n: TOP for n in reach}
+    for s0 in starts:
+        out[s0] = frozenset([stmt.targets[0].id])
+
+    def transfer(n, inset):
+        a = n.ast
+        if n.kind == "stmt" and isinstance(a, ast.Assign) and len(a.targets) == 1 and isinstance(a.targets[0], ast.Name):
+            t = a.targets[0].id
+            if isinstance(a.value, ast.Name) and a.value.id in inset:
+                return inset | {t}
+            return inset - {t}
+        if n.kind == "stmt" and isinstance(a, (ast.AugAssign, ast.AnnAssign)) and isinstance(a.target, ast.Name):
+            return inset - {a.target.id}
+        return inset
+    changed = True
+    while changed:
+        changed = False
+        for n in reach:
+            if n in starts:
+                continue
+            ins = [out[p] for p in n.preds if (p in reach or p in starts) and n in p.succs and out.get(p) is not TOP]
+            if not ins:
+                continue
+            inset = frozenset.intersection(*ins)
+            new = transfer(n, inset)
+            if out[n] is TOP or new != out[n]:
+                out[n] = new
+                changed = True
+    res = []
+    for n in reach:
+        if n.kind == "stmt" and n.ast is not None and is_sink(n.ast):
+            nm = is_sink(n.ast)
+            ins = [out[p] for p in n.preds if (p in reach or p in starts) and n in p.succs and out.get(p) is not TOP]
+            inset = frozenset.intersection(*ins) if ins else frozenset()
+            res.append((n.ast, nm, nm in inset))
+    return res
+
+
+def r4(ctx):
+    repo = ctx.repo
+    ctx.rule("C03.R4", "the ZEROCODED flag and the coding of the body go together: serialize puts exactly "
+                       "zero_code_compress(body) on the wire iff msg.zerocoded, the body parser reads exactly "
+                       "zero_code_expand(body) iff msg.zerocoded (no further condition, no fallback to the plain body)")
+
+    def sink_writer(st):
+        """name written/returned as the body, or None"""
+        if isinstance(st, ast.Return) and isinstance(st.value, ast.Name):
+            return st.value.id
+        for c in calls(st):
+            if isinstance(c.func, ast.Attribute) and c.func.attr == "write_bytes" and len(c.args) == 1:
+                return c.args[0].id if isinstance(c.args[0], ast.Name) else None
+        return None
+
+    def sink_reader(st):
+        for c in calls(st):
+            if (ap(c.func) or "").split(".")[-1] == "BufferReader" and len(c.args) >= 2:
+                return c.args[1].id if isinstance(c.args[1], ast.Name) else None
+        return None
+    sides = (("writer", "UDPMessageSerializer.serialize", "zero_code_compress", sink_writer),
+             ("reader", "UDPMessageDeserializer.parse_message_body", "zero_code_expand", sink_reader))
+    for side, anchor, fname, sink in sides:
+        fns = class_methods_reachable(repo, repo.fn(anchor), depth=3)
+        sites = [(g, c) for g in fns for c in find_calls(g.node, fname, into_defs=False)]
+        ctx.floor("C03.R4", f"{side} calls of {fname}", len(sites), 1)
+        for g, c in sites:
+            # the "no unparsed raw body" branch of serialize is not a condition on the coding
+            raw_names = {ap(t) for n in walk(g.node) if isinstance(n, ast.Assign) and isinstance(n.value, ast.Attribute)
+                         and n.value.attr == "raw_body" for t in n.targets}
+
+            def raw_presence_test(e):
+                nt = is_none_test(e)
+                path = nt[0] if nt else ap(e)
+                return path is not None and (path in raw_names or path.endswith(".raw_body"))
+            conds = [(e, pol) for e, pol in _gate_conditions(c, g.node) if not raw_presence_test(e)]
+            on_flag = len(conds) == 1 and conds[0][1] and (ap(conds[0][0]) or "").endswith(".zerocoded")
+            ctx.ob("C03.R4", f"{g.qual}: `{norm(c)}` applied exactly when the message is flagged zero-coded", on_flag, ctx.w(g, c),
+                   f"applied under {[norm(e) + ('' if p else ' (negated)') for e, p in conds]}: the peer decides from the "
+                   f"ZEROCODED flag alone how to read the body")
+            res = _must_hold_at_sinks(g, c, sink)
+            ctx.ob("C03.R4", f"{g.qual}: result of `{norm(c)}` reaches its consumer", len(res) >= 1, ctx.w(g, c),
+                   "the transformed body is never written / parsed")
+            for st, nm, holds in res:
+                ctx.ob("C03.R4", f"{g.qual}: `{norm(st)}` uses the {fname} result on every path through it", holds, ctx.w(g, st),
+                       f"`{nm}` may still hold the untransformed body here although the flag says zero-coded: what goes on "
+                       f"the wire / into the parser is not the zero-coding the flag announces")
+
+
 def run(ctx):
     r1(ctx)
     r2(ctx)
     r3(ctx)
+    r4(ctx)
     ctx.assume("losslessness and agreement with the reference decoder on all inputs are value-level and not decided "
                "statically (only the necessary typestate/accounting conditions above)")
